@@ -16,7 +16,8 @@ EXPLANATION = (
     "containers removes from the other one too — a ghost key left in the order/frequency index later defeats the "
     "capacity bound; (SHARE) clones share the store, SharedCacheLayer hands the same Arc to every service, and the "
     "store mutex guard is never held across a suspension point."
-    ' (COUNTER) per-key use counters are at least 64 bits wide; every construction path of the store hands it the configured ttl (store-ttl-origin).')
+    ' (COUNTER) per-key use counters are at least 64 bits wide; every construction path of the store hands it the configured ttl (store-ttl-origin).'
+    ' (OVERWRITE) re-storing a key that is present gives the bookkeeping containers no second entry and no reset counter; the expiry predicate answers `fresh` without looking at the age only when no TTL is configured.')
 RULE = "one obligation per wrapped-call site, per insertion site, per key operand, per Some-return of get, per new-key insertion, per removing method, per Arc field"
 TRUSTED = ["lru::LruCache (bounded by its capacity)", "std::collections::HashMap / VecDeque", "std::sync::Mutex"]
 ASSUMPTIONS = ["max_size >= 1"]
